@@ -214,7 +214,7 @@ func handle(r wproto.Req) (resp wproto.Resp) {
 			resp.Err, resp.ErrTyp = err.Error(), errType(err)
 		}
 	case "downstream":
-		cmds, comments, err := parser.ParseCommands(nil, "w", r.Src)
+		cmds, comments, err := parser.ParseCommands(env(r), "w", r.Src)
 		if err != nil {
 			resp.Err, resp.ErrTyp = err.Error(), errType(err)
 			return
